@@ -1,7 +1,7 @@
 (* C14/ProofsInmemAns.v — every answer of the store model with the in-memory index is the
    projection of the abstract set. *)
 From Verif Require Import C14.Spec C14.Model C14.ProofsBase C14.ProofsQuery C14.ProofsSfile
-     C14.ProofsLsmD C14.ProofsLsmH C14.ProofsTs C14.ProofsTsAns C14.ProofsInmem C14.ProofsInmem2 C14.ProofsInmem3.
+     C14.ProofsLsmD C14.ProofsLsmH C14.ProofsConv C14.ProofsTs C14.ProofsTsAns C14.ProofsClean C14.ProofsInmem C14.ProofsInmem2 C14.ProofsInmem3.
 
 Section Answers.
   Variable rx : str -> str -> bool.
@@ -28,28 +28,42 @@ Section Answers.
   Proof.
     intros Hq. pose proof (is_refines rx n A st OK) as R. pose proof (ik_sf _ _ _ OK) as Isf. fold sf L U db in R, Isf.
     assert (Hrows : forall r l, In r (dedup row_eqb l) <-> In r l) by (intros r l; apply (In_dedup row_eqb row_eqb_eq)).
-    destruct q as [c|m c|m k c|m c|sh m c| | ]; cbn [is_answer spec_answer answer_equiv]; fold sf db U.
+    destruct q as [c|m c|m k c|m c|sh m c|sh bsz small m c| | ]; cbn [is_answer spec_answer answer_equiv]; fold sf db U.
     - destruct c as [p|]; cbn [answer_equiv]; intros r; rewrite Hrows, !in_map_iff;
         split; intros [m [E H]]; exists m; (split; [exact E|]).
-      + apply (q_names_ok rx db sf L U R (Some p) m); exact H.
-      + apply (q_names_ok rx db sf L U R (Some p) m); exact H.
-      + apply (q_names_ok rx db sf L U R None m); exact H.
-      + apply (q_names_ok rx db sf L U R None m); exact H.
-    - intros r. rewrite !Hrows. apply (q_tagkeys_ok rx db sf L U R).
-    - intros r. rewrite !Hrows. apply (q_tagvals_ok rx db sf L U R).
-    - intros r. rewrite Hrows. apply (q_series_ok rx db sf L U R).
+      + apply (q_names_ok' rx db sf L U R (Some p) m); exact H.
+      + apply (q_names_ok' rx db sf L U R (Some p) m); exact H.
+      + apply (q_names_ok' rx db sf L U R None m); exact H.
+      + apply (q_names_ok' rx db sf L U R None m); exact H.
+    - intros r. rewrite !Hrows. apply (q_tagkeys_ok' rx db sf L U R).
+    - intros r. rewrite !Hrows. apply (q_tagvals_ok' rx db sf L U R).
+    - intros r. rewrite Hrows. apply (q_series_ok' rx db sf L U R).
     - (* per shard: the database-wide answer restricted by the shard's id set *)
       cbn [wf_query] in Hq. pose proof (ik_shard _ _ _ OK sh Hq) as O. fold sf in O.
       intros r. rewrite Hrows, !in_map_iff. split; intros [s [E H]]; exists s; (split; [exact E|]).
       + apply In_keys_of in H. destruct H as [i [Hi Hk]]. apply filter_In in Hi. destruct Hi as [Hi Hs].
-        apply (memb_In N.eqb N.eqb_eq) in Hs. apply (series_ids_ok rx db sf L U R) in Hi. destruct Hi as [s' [[_ Hk'] [Hm He]]].
+        apply (memb_In N.eqb N.eqb_eq) in Hs. apply (series_ids_ok' rx db sf L U R) in Hi. destruct Hi as [s' [[_ Hk'] [Hm He]]].
         rewrite Hk in Hk'. inversion Hk'; subst s'. destruct (io_live _ _ _ O i Hs) as [s'' [K'' [_ HS]]]. rewrite Hk in K''. inversion K''; subst s''.
         unfold series_of. apply filter_In. split; [exact HS|]. rewrite He, (proj2 (str_eqb_eq _ _) Hm). reflexivity.
       + unfold series_of in H. apply filter_In in H. destruct H as [HS Hc]. apply andb_true_iff in Hc. destruct Hc as [Hm He]. apply str_eqb_eq in Hm.
         destruct (io_cover _ _ _ O s HS) as [i [Hi Hk]]. apply In_keys_of. exists i. split; [|exact Hk].
         apply filter_In. split; [|apply (memb_In N.eqb N.eqb_eq); exact Hi].
-        apply (series_ids_ok rx db sf L U R). exists s. ssplit; auto. split; [|exact Hk].
+        apply (series_ids_ok' rx db sf L U R). exists s. ssplit; auto. split; [|exact Hk].
         apply (In_is_L n st i (ik_len _ _ _ OK)). eauto.
+    - (* the shard converted offline to a TSI index *)
+      cbn [wf_query] in Hq. apply andb_true_iff in Hq. destruct Hq as [Hv Hb]. apply Nat.leb_le in Hb.
+      set (keys := map snd (filter (fun p => Nat.eqb (fst p) sh) (is_data st))).
+      assert (Hkeys : forall s, In s keys <-> In (sh, s) A).
+      { intros s. unfold keys. rewrite in_map_iff. split.
+        - intros [[sh' s'] [E H]]. cbn in E. subst s'. apply filter_In in H. destruct H as [H Es]. cbn in Es.
+          apply Nat.eqb_eq in Es. subst sh'. apply (ik_data _ _ _ OK). exact H.
+        - intros H. exists (sh, s). split; [reflexivity|]. apply filter_In. split; [apply (ik_data _ _ _ OK); exact H|].
+          cbn. apply Nat.eqb_refl. }
+      pose proof (conv_lists_keys rx sf keys bsz small (shard_set A sh) m c Isf) as HC.
+      destruct (cv_index sf keys bsz small) as [sf' t]. cbn [fst snd answer_equiv] in *.
+      intros r. rewrite Hrows. apply HC; [| |exact Hb].
+      + intros s Hs. apply Hkeys in Hs. apply (ik_A _ _ _ OK sh s Hs).
+      + intros s. rewrite In_shard_set, Hkeys. tauto.
     - f_equal.
       + f_equal. fold L. apply (card_eq sf); [apply NoDup_iunions|apply NoDup_db_set| | |].
         * intros i Hi. destruct (r_live _ _ _ _ R i Hi) as [s [H1 [H2 _]]]. eauto.
